@@ -130,7 +130,7 @@ theorem atoms_order_equivariant (h : TupleHash) {π : Nat → Nat} (hπ : Functi
   | [(n, a)], [(n', a')] =>
     rw [hm, hm'] at ha
     have := List.perm_singleton.mp ha
-    simp only [mapKeys, List.map_cons, List.map_nil, List.cons.injEq, Prod.mk.injEq, and_true] at this
+    simp only [List.cons.injEq, Prod.mk.injEq, and_true] at this
     rw [this.1]
     exact .some (List.Perm.refl _)
   | [_], _ :: _ :: _ => simp [hm, hm'] at hlen
@@ -174,6 +174,14 @@ theorem atoms_order_renumbering (h : TupleHash) {π : Nat → Nat} (hπ : Functi
     intro n
     exact lookup_dictEq hπ (atomsOrder_keys_nodup' h hk.1 hk.2 hr) hp n
 
+/-- **automorphic atoms are in one class**: if `π` is a symmetry of the molecule (the molecule described in `π`-renamed
+    numbers is the same molecule up to dict order), atom `π n` has the rank of atom `n`. So the classes of
+    `atoms_order` are unions of orbits of the automorphism group — never finer than the true symmetry. -/
+theorem automorphic_atoms_same_class (h : TupleHash) {π : Nat → Nat} (hπ : Function.Injective π) {m : MolView}
+    (hk : KeysOK m) (hauto : MolEq π m m) {r : List (Nat × Nat)} (hr : atomsOrder h m = some r) :
+    ∀ n, r.lookup (π n) = r.lookup n :=
+  atoms_order_renumbering h hπ hk hauto hr hr
+
 /-- an exception in one description is an exception in the other -/
 theorem atoms_order_error_equivariant (h : TupleHash) {π : Nat → Nat} (hπ : Function.Injective π) {m m' : MolView}
     (hk : KeysOK m) (hmm : MolEq π m m') : atomsOrder h m = none ↔ atomsOrder h m' = none := by
@@ -187,6 +195,36 @@ theorem atoms_order_error_equivariant (h : TupleHash) {π : Nat → Nat} (hπ : 
     rw [hn] at he
     generalize atomsOrder h m = y at he
     cases he; rfl
+
+/-! ## `_chiral_morgan` (the weights of the writer) for label-free molecules -/
+
+/-- lift of `OptRel (DictEq π)` to the three outcomes of the `_chiral_morgan` model -/
+inductive ChiralRel (π : Nat → Nat) : ChiralMorgan → ChiralMorgan → Prop
+  | ranks {r r'} : DictEq π r r' → ChiralRel π (.ranks r) (.ranks r')
+  | keyError : ChiralRel π .keyError .keyError
+
+/-- for molecules without stereo labels `_chiral_morgan` *is* `atoms_order` … -/
+theorem chiral_morgan_of_no_labels (h : TupleHash) (m : MolView) (hb : stereoBondAtoms m.bonds = []) :
+    chiralMorgan h m [] = match atomsOrder h m with | some r => .ranks r | none => .keyError := by
+  simp only [chiralMorgan, hb, List.isEmpty_nil, Bool.and_self, if_true]
+  cases atomsOrder h m <;> rfl
+
+/-- … hence the writer's weights (`_smiles_order`) of two label-free descriptions of one structure agree up to `π`. -/
+theorem chiral_morgan_equivariant_of_no_labels (h : TupleHash) {π : Nat → Nat} (hπ : Function.Injective π)
+    {m m' : MolView} (hk : KeysOK m) (hmm : MolEq π m m')
+    (hb : stereoBondAtoms m.bonds = []) (hb' : stereoBondAtoms m'.bonds = []) :
+    ChiralRel π (chiralMorgan h m []) (chiralMorgan h m' []) := by
+  rw [chiral_morgan_of_no_labels h m hb, chiral_morgan_of_no_labels h m' hb']
+  have he := atoms_order_equivariant h hπ hk hmm
+  revert he
+  cases atomsOrder h m <;> cases atomsOrder h m' <;> intro he <;> cases he
+  · exact .keyError
+  · rename_i hrr; exact .ranks hrr
+
+/-- a labelled molecule is outside this model (the driver answers `notmodelled`; validated relationally) -/
+theorem chiral_morgan_labelled_not_modelled (h : TupleHash) (m : MolView) (a : Nat) (rest : List Nat) :
+    chiralMorgan h m (a :: rest) = .notModelled := by
+  simp [chiralMorgan]
 
 /-! ## no exception on well-formed input; `Element.__hash__` never hashes `None` -/
 
